@@ -1,0 +1,27 @@
+package common
+
+import (
+	"github.com/protolambda/ztyp/bitfields"
+	"github.com/protolambda/ztyp/codec"
+)
+
+// DecodeBitList reads a bitlist with the given bit limit from the remaining scope of the reader.
+//
+// codec.DecodingReader.BitList computes the byte limit without the delimiter bit, and thus refuses a bitlist
+// that is filled up to a limit that is a multiple of 8 (e.g. a full committee of MAX_VALIDATORS_PER_COMMITTEE).
+func DecodeBitList(dr *codec.DecodingReader, dst *[]byte, bitLimit uint64) error {
+	byteLen := dr.Scope()
+	if err := bitfields.BitlistCheckByteLen(byteLen, bitLimit); err != nil {
+		return err
+	}
+	// grow the destination if necessary
+	if uint64(cap(*dst)) < byteLen {
+		*dst = make([]byte, byteLen, byteLen)
+	} else {
+		*dst = (*dst)[:byteLen]
+	}
+	if _, err := dr.Read(*dst); err != nil {
+		return err
+	}
+	return bitfields.BitlistCheck(*dst, bitLimit)
+}
